@@ -12,6 +12,7 @@ CONSTANTS
   Leeways <- L_c12
   Deviations <- NoDev
   Variants <- Mech
+  Guests = FALSE
   TagTest = "isnone"
   BoxForm = "general"
 INVARIANT C12_AlgIsBox
